@@ -30,6 +30,13 @@ type runnerModel struct {
 	jump, set, ifx, cmd, call, decl, incVisit *Func
 	waiting                                  *Func // isWaitingForChoice-like predicate (may be nil)
 	problems                                 []string
+
+	// the cursor over a list of statements (statementQueue today), recognised by structure: a struct of the package
+	// with a []*tree.Statement field and an int field
+	queueT *types.Named
+	fStmts *types.Var
+	fPtr   *types.Var
+	fetch  *Func // method on *queueT returning (statement, ok); nil when the fetch is written out at its use
 }
 
 var runnerModelCache *runnerModel
@@ -55,7 +62,51 @@ func (w *World) runner() *runnerModel {
 		m.problems = append(m.problems, fmt.Sprintf("no unique DialogueRunner field of type %s (nor named %s)", typ, fallback))
 		return nil
 	}
-	m.fStack = field("container.Stack[*ysgo.statementQueue]", "statementsToRun")
+	// the statement cursor type
+	sc := m.pkg.Types.Scope()
+	for _, name := range sc.Names() {
+		tn, ok := sc.Lookup(name).(*types.TypeName)
+		if !ok || tn.IsAlias() {
+			continue
+		}
+		n, ok := tn.Type().(*types.Named)
+		if !ok || n == m.T {
+			continue
+		}
+		st, ok := n.Underlying().(*types.Struct)
+		if !ok || st.NumFields() > 4 {
+			continue
+		}
+		var fs, fp *types.Var
+		nInt := 0
+		for i := 0; i < st.NumFields(); i++ {
+			switch typeStr(st.Field(i).Type()) {
+			case "[]*tree.Statement":
+				fs = st.Field(i)
+			case "int":
+				fp = st.Field(i)
+				nInt++
+			}
+		}
+		if fs != nil && fp != nil && nInt == 1 {
+			if m.queueT != nil {
+				m.problems = append(m.problems, "two candidate statement cursor types: "+m.queueT.Obj().Name()+", "+n.Obj().Name())
+			}
+			m.queueT, m.fStmts, m.fPtr = n, fs, fp
+		}
+	}
+	if m.queueT == nil {
+		m.problems = append(m.problems, "no statement cursor type (struct with a []*tree.Statement field and an int field)")
+		return m
+	}
+	m.fStack = field("container.Stack[*"+typeStr(m.queueT)+"]", "statementsToRun")
+	for _, g := range w.FuncsIn(m.pkg) {
+		if g.Decl != nil && g.Decl.Recv != nil && g.Body != nil && g.Sig().Results().Len() == 2 {
+			if p, ok := g.Sig().Recv().Type().(*types.Pointer); ok && p.Elem() == types.Type(m.queueT) && typeStr(g.Sig().Results().At(0).Type()) == "*tree.Statement" {
+				m.fetch = g
+			}
+		}
+	}
 	m.fLast = field("*tree.Statement", "lastStatement")
 	m.fChan = field("<-chan error", "commandErrChan")
 	m.fNode = field("string", "currentNode")
